@@ -599,6 +599,22 @@ func (fr *Frame) execBlock(st *State, n node) []*State {
 			f := st.clone()
 			t.reach = r.define("reach", SBool, and(st.reach, c))
 			f.reach = r.define("reach", SBool, and(f.reach, not(c)))
+			if bo, ok := x.Cond.(*ssa.BinOp); ok && bo.Op == token.EQL {
+				for _, pr := range [][2]ssa.Value{{bo.X, bo.Y}, {bo.Y, bo.X}} {
+					if cst, ok := pr[1].(*ssa.Const); ok && cst.Value != nil && cst.Value.Kind() == constant.Int {
+						if tv, ok := fr.val(t, pr[0]).(TV); ok && tv.Sort == SInt {
+							term := tv.S
+							if d, ok := r.defs[term]; ok {
+								term = d
+							}
+							if t.eqFacts == nil {
+								t.eqFacts = map[string]string{}
+							}
+							t.eqFacts[term] = cst.Value.ExactString()
+						}
+					}
+				}
+			}
 			fr.flow(t, n, 0, outs)
 			fr.flow(f, n, 1, outs)
 			return outs
